@@ -10,8 +10,8 @@ CLASSES = {
     "C12": {"cache_changes_find", "cache_changes_len", "cache_budget", "panic", "trace_rejected"} | _pr.CLASSES["C12"],
 }
 CFGS = {
-    "quick": ["MC_RadixTree_quick.cfg", "MC_RadixTree_nonascii.cfg", "MC_RadixTree_paths.cfg", "MC_RadixTree_siblings.cfg", "MC_RadixTree_big.cfg"],
-    "thorough": ["MC_RadixTree_quick.cfg", "MC_RadixTree_nonascii.cfg", "MC_RadixTree_paths.cfg", "MC_RadixTree_siblings.cfg", "MC_RadixTree_big.cfg", "MC_RadixTree_thoroughA.cfg", "MC_RadixTree_thoroughB.cfg"],
+    "quick": ["MC_RadixTree_quick.cfg", "MC_RadixTree_nonascii.cfg", "MC_RadixTree_paths.cfg", "MC_RadixTree_siblings.cfg", "MC_RadixTree_big.cfg", "MC_RadixTree_deepq.cfg"],
+    "thorough": ["MC_RadixTree_quick.cfg", "MC_RadixTree_nonascii.cfg", "MC_RadixTree_paths.cfg", "MC_RadixTree_siblings.cfg", "MC_RadixTree_big.cfg", "MC_RadixTree_deep.cfg", "MC_RadixTree_thoroughA.cfg", "MC_RadixTree_thoroughB.cfg"],
 }
 REPLAY = {p: {"driver": "radix", "trace_module": "Trace_RadixTree", "trace_cfg": "Trace_RadixTree.cfg"} for p in CLASSES}
 
